@@ -176,16 +176,16 @@ func c11Judge(cs *core.Case, env *Env, in, out string, lc core.LocalCounts) bool
 }
 
 func runC11(ctx *core.Ctx) {
-	ctx.Rule = "enumerated product: all 32 combinations of the five link options x rel rule (unpatterned | SpaceSeparatedTokens | none) x target rule (allowed | not) x element (a, area, link) x every sequence of <= L attributes over {href, rel, target} with multiplicity <= 2, values drawn per instance from pools that contain the required words as tokens, as substrings of other tokens, in upper case, duplicated, TAB/LF/NBSP/VT separated; oracle reads the first rel/target/href of each output link as a browser does; non-trivial = an output link carrying an href was judged, distinct by (policy, input)"
+	ctx.Rule = "enumerated product: all 32 combinations of the five link options x rel rule (unpatterned | SpaceSeparatedTokens | none | through an element pattern) x target rule (allowed | not) x element (a, area, link) x every sequence of <= L attributes over {href, rel, target} with multiplicity <= 2, values drawn per instance from pools that contain the required words as tokens, as substrings of other tokens, in upper case, duplicated, TAB/LF/NBSP/VT separated; oracle reads the first rel/target/href of each output link as a browser does; non-trivial = an output link carrying an href was judged, distinct by (policy, input)"
 	ctx.Assume("host-ness is judged only where RFC 3986 and WHATWG agree", "a without href and target values differing from _blank in case are not judged", "rel tokens are split on ASCII whitespace and compared ASCII-case-insensitively")
 	ctx.Exhaustive(false)
 	seqs := c11Seqs(ctx.N(4, 5))
 	K := ctx.N(10, 24)
 	swNames := []string{spec.SwNoFollow, spec.SwNoFollowFQ, spec.SwNoReferrer, spec.SwNoReferrerFQ, spec.SwTargetBlank}
-	ctx.Run("options", 32*3*2, func(cs *core.Case) {
+	ctx.Run("options", 32*4*2, func(cs *core.Case) {
 		mask := cs.Index % 32
-		relRule := (cs.Index / 32) % 3
-		targetRule := cs.Index / 96
+		relRule := (cs.Index / 32) % 4
+		targetRule := cs.Index / 128
 		ops := []spec.Op{{K: spec.KNew}, {K: spec.KAllowAttrs, Attrs: []string{"href"}, Scope: "els", Names: []string{"a", "area", "link"}},
 			{K: spec.KSchemes, Names: []string{"http", "https", "mailto", "ftp"}}, {K: spec.KSwitch, Names: []string{spec.SwRelative}, B: true}}
 		switch relRule {
@@ -193,8 +193,15 @@ func runC11(ctx *core.Ctx) {
 			ops = append(ops, spec.Op{K: spec.KAllowAttrs, Attrs: []string{"rel"}, Scope: "els", Names: []string{"a", "area", "link"}})
 		case 1:
 			ops = append(ops, spec.Op{K: spec.KAllowAttrs, Attrs: []string{"rel"}, Re: spec.ReSpaceSepTokens, Scope: "global"})
+		case 3:
+			// rel (and href) allowed only through an element-pattern rule: the link elements are not named explicitly
+			ops = []spec.Op{{K: spec.KNew}, {K: spec.KAllowAttrs, Attrs: []string{"href", "rel"}, Scope: "match", ElRe: `^(a|area|link)$`},
+				{K: spec.KSchemes, Names: []string{"http", "https", "mailto", "ftp"}}, {K: spec.KSwitch, Names: []string{spec.SwRelative}, B: true}}
 		}
-		if targetRule == 1 {
+		if targetRule == 1 && relRule == 3 {
+			ops = append(ops, spec.Op{K: spec.KAllowAttrs, Attrs: []string{"target"}, Scope: "match", ElRe: `^(a|area|link)$`})
+		}
+		if targetRule == 1 && relRule != 3 {
 			ops = append(ops, spec.Op{K: spec.KAllowAttrs, Attrs: []string{"target"}, Scope: "els", Names: []string{"a", "area", "link"}})
 		}
 		for b, n := range swNames {
